@@ -33,6 +33,10 @@ type InterfaceType struct {
 	TypePackage string
 	IsPointer   bool
 	IsVariadic  bool
+
+	// typ is the go/types type this entry was built from (nil for hand-built models).
+	// When both sides of a comparison carry it, type identity decides instead of the names above.
+	typ types.Type
 }
 
 // LoadInterfaces loads specified interfaces from the analysis pass
@@ -147,6 +151,7 @@ func extractTypesFromTuple(tuple *types.Tuple, isVariadic bool) []InterfaceType 
 	for i := 0; i < tuple.Len(); i++ {
 		param := tuple.At(i)
 		result[i] = convertTypesToInterfaceType(param.Type())
+		result[i].typ = param.Type()
 
 		// Mark last parameter as variadic if needed
 		// For variadic params, the type is []T, so we need to unwrap it
@@ -157,6 +162,7 @@ func extractTypesFromTuple(tuple *types.Tuple, isVariadic bool) []InterfaceType 
 			if slice, ok := param.Type().(*types.Slice); ok {
 				result[i] = convertTypesToInterfaceType(slice.Elem())
 				result[i].IsVariadic = true
+				result[i].typ = slice.Elem()
 			}
 		}
 	}
